@@ -7,8 +7,8 @@ Theorem C13_indexed_collect_any_order :
 Proof. exact Misc.collect_any_order. Qed.
 
 Theorem C13_prestate_independent :
-  forall (cap : nat) (L : N) (ws : list OutProto.wr) (rows : list (nat * bytes)) (trace : list OutProto.osop) (s : OutProto.fs), (0 < cap)%nat -> OutProto.run cap L ws rows = (trace, 0) -> NoDup (OutProto.tmps ws ++ OutProto.finals ws) -> OutProto.fresh_writers ws -> exists ws' : list OutProto.wr, OutProto.tmps ws' = OutProto.tmps ws /\ OutProto.finals ws' = OutProto.finals ws /\ Forall (fun w : OutProto.wr => OutProto.fs_get (OutProto.w_final w) (OutProto.apply_trace s trace) = Some (OutProto.w_logical w) /\ OutProto.fs_get (OutProto.tmp (OutProto.w_bw w)) (OutProto.apply_trace s trace) = None) ws' /\ (forall g : OutProto.name, ~ In g (OutProto.tmps ws ++ OutProto.finals ws) -> OutProto.fs_get g (OutProto.apply_trace s trace) = OutProto.fs_get g s).
-Proof. exact OutProto.success_complete. Qed.
+  forall (cap : nat) (L : N) (ws : list OutProto.wr) (rows : list (nat * bytes)) (trace : list OutProto.osop) (s : OutProto.fs), (0 < cap)%nat -> OutProto.run cap L ws rows = (trace, 0) -> NoDup (OutProto.tmps ws ++ OutProto.finals ws) -> OutProto.fresh_writers ws -> (forall r : nat * bytes, In r rows -> (fst r < length ws)%nat) -> forall j : nat, (j < length ws)%nat -> OutProto.fs_get (nth j (OutProto.finals ws) 0) (OutProto.apply_trace s trace) = Some (OutProto.data_for j rows) /\ OutProto.fs_get (nth j (OutProto.tmps ws) 0) (OutProto.apply_trace s trace) = None.
+Proof. exact OutProto.success_content. Qed.
 
 Theorem C13_failure_touches_no_final :
   forall (cap : nat) (L : N) (ws : list OutProto.wr) (rows : list (nat * bytes)) (trace : list OutProto.osop) (s : OutProto.fs), OutProto.run cap L ws rows = (trace, 1) -> (forall f : OutProto.name, In f (OutProto.finals ws) -> ~ In f (OutProto.tmps ws)) -> forall f : OutProto.name, In f (OutProto.finals ws) -> OutProto.fs_get f (OutProto.apply_trace s trace) = OutProto.fs_get f s.
